@@ -416,8 +416,10 @@ func checkGeom(g orb.Geometry, flips []int, flipFill int, spaces []int, spaceFil
 	want := canonical(g)
 	kw := keywordOf(want)
 	s := wkt.MarshalString(g)
-	if b := wkt.Marshal(g); string(b) != s {
-		return fmt.Errorf("Marshal and MarshalString differ: %q vs %q", clip(string(b)), clip(s))
+	noise(len(s))
+	// Marshal agrees with MarshalString and its []byte is the caller's own
+	if err := checkMarshalIndependent(g, s); err != nil {
+		return err
 	}
 	// empty values as the EMPTY form
 	if isEmptyValue(want) && !strings.EqualFold(s, kw+" EMPTY") {
@@ -429,11 +431,21 @@ func checkGeom(g orb.Geometry, flips []int, flipFill int, spaces []int, spaceFil
 	if err := checkText("produced text", s, want, kw); err != nil {
 		return err
 	}
+	noise(len(s) + 1)
 	// the scripted re-spelling
-	if r := respell(s, flips, flipFill, spaces, spaceFill); r != s {
+	r := respell(s, flips, flipFill, spaces, spaceFill)
+	if r != s {
 		if err := checkText("re-spelled text", r, want, kw); err != nil {
 			return err
 		}
+	}
+	// results are independent values: Unmarshal on the produced text, the typed function on the scripted spelling
+	if err := checkIndependent("Unmarshal of the produced text", func() (orb.Geometry, error) { return wkt.Unmarshal(s) }, want); err != nil {
+		return fmt.Errorf("%v (text %q)", err, clip(s))
+	}
+	noise(len(s) + 2)
+	if err := checkIndependent("typed parser "+kw, func() (orb.Geometry, error) { return typed(kw, r) }, want); err != nil {
+		return fmt.Errorf("%v (text %q)", err, clip(r))
 	}
 	// two fixed re-spellings: lower case with two spaces in every slot; case alternating with one space
 	if r := respell(s, nil, 1, nil, 2); r != s {
@@ -966,7 +978,8 @@ func TestPropRoundTrip(t *testing.T) {
 	small := gen.Geom(baseOpts(3, 5))
 	long := gen.Geom(baseOpts(1, 60))
 	wideG := wide()
-	stats.Check(t, 80000, 2500000, func(rt *rapid.T) {
+	bigG := big()
+	stats.Check(t, 60000, 1800000, func(rt *rapid.T) {
 		var c Case
 		switch sz := rapid.IntRange(0, 39).Draw(rt, "size"); {
 		case sz == 0:
@@ -975,6 +988,9 @@ func TestPropRoundTrip(t *testing.T) {
 		case sz <= 3:
 			stats.Class("size:4..12 members (lines, rings, polygons, collection members)")
 			c.G.V = wideG.Draw(rt, "g")
+		case sz == 4:
+			stats.Class("size:tens to hundreds of vertices per part")
+			c.G.V = bigG.Draw(rt, "g")
 		default:
 			c.G.V = small.Draw(rt, "g")
 		}
@@ -991,7 +1007,7 @@ func TestPropRoundTrip(t *testing.T) {
 func TestPropCollection(t *testing.T) {
 	assumptions()
 	member := gen.Geom(baseOpts(2, 4))
-	stats.Check(t, 50000, 1000000, func(rt *rapid.T) {
+	stats.Check(t, 40000, 700000, func(rt *rapid.T) {
 		var c Case
 		n := rapid.IntRange(1, 4).Draw(rt, "members")
 		col := make(orb.Collection, n)
@@ -1039,7 +1055,7 @@ func TestPropCollection(t *testing.T) {
 func TestPropRetained(t *testing.T) {
 	assumptions()
 	small := gen.Geom(baseOpts(2, 4))
-	stats.Check(t, 30000, 500000, func(rt *rapid.T) {
+	stats.Check(t, 20000, 300000, func(rt *rapid.T) {
 		var c Case
 		n := rapid.IntRange(2, 4).Draw(rt, "n")
 		same := rapid.IntRange(0, 4).Draw(rt, "same kind") == 0
@@ -1303,6 +1319,10 @@ func TestReplay(t *testing.T) {
 	_, raw, ok := stats.Replaying()
 	if !ok {
 		t.Skip("no replay file")
+	}
+	if name, _, _ := stats.Replaying(); name == "TestPropConcurrent" {
+		replayConcurrent(t, raw)
+		return
 	}
 	var c Case
 	if err := json.Unmarshal(raw, &c); err != nil {
